@@ -7,7 +7,11 @@ patch=$1; tier=$2; shift; shift
 wt=/tmp/sr-$$
 git -C /repo worktree add --detach $wt HEAD -q || { echo "worktree failed"; exit 2; }
 trap 'git -C /repo worktree remove --force $wt >/dev/null 2>&1' EXIT
-git -C $wt apply "$patch" || { echo "patch does not apply"; exit 2; }
+if ! git -C $wt apply "$patch" 2>/dev/null; then
+  # a later fix: commit touched the same lines: fall back to the commit the seed was confirmed on
+  base=$(python3 -c "import json,os,sys;print(json.load(open(os.path.join(os.path.dirname(sys.argv[1]),'meta.json'))).get('base_commit',''))" "$patch" 2>/dev/null)
+  [ -n "$base" ] && git -C $wt checkout -q --detach $base && git -C $wt apply "$patch" && echo "(applied on base commit $base)" || { echo "patch does not apply"; exit 2; }
+fi
 for id in "$@"; do
   out=$(cd /verif && VERIF_REPO=$wt ./check.sh $id $tier 2>&1); rc=$?
   nv=$(echo "$out" | grep -c "^VIOLATION")
